@@ -69,12 +69,12 @@ func TestVerifC19_histogram_agg(t *testing.T) {
 			c19H(4, 1), c19H(4, 2), c19H(4, 3), c19H(4, 4), c19H(4, 5),
 			c19H(8, 3), c19H(100, 10),
 		},
-		FullShares:  []int{2, 3},
-		LightShares: []int{4, 8, 9, 255},
-		MaxBatch:    3,
-		RTMaxBatch:  2,
-		Seeds:       r.Pick(2, 5),
-		DomainLimit: 8,
+		FullShares:    []int{2, 3},
+		LightShares:   []int{4, 8, 9, 255},
+		MaxBatch:      3,
+		RTMaxBatch:    2,
+		Seeds:         r.Pick(2, 5),
+		DomainLimit:   8,
 		SweepInsts:    []prio.Inst{c19H(4, 2)},
 		HistoryInsts:  []prio.Inst{c19H(4, 2), c19H(2, 1)},
 		HistoryShares: []int{2, 3},
@@ -88,6 +88,7 @@ func TestVerifC19_histogram_agg(t *testing.T) {
 }
 
 func TestVerifC19_histogram_invalid(t *testing.T) {
+	verifc19.SkipNarrow(t)
 	r := verifmc.Start(t, "C19", "histogram_invalid")
 	defer r.Finish()
 	plan := verifc19.InvalidPlan{
